@@ -23,9 +23,9 @@ from simftp import model as M
 from simftp.peers import RawPeer
 
 PROP = "C04"
-TREE = {"/": None, "/f": b"root-file", "/pub": None, "/pub/a": None, "/pub/a/x": b"xxxxxxxxxx", "/pub/a/e": None, "/pub/b": b"bbbb", "/priv": None, "/priv/s": None, "/priv/s/t": b"tttt", "/priv/k": b"kk"}
-PERM_PATHS = ["/", "/pub", "/pub/a", "/priv", "/priv/s", "/pub/a/x", "/pub/b", "/nonexistent", "/pub/", "/priv/s/t", "/pub/a/e"]
-LOCS = ["/", "/f", "/pub", "/pub/a", "/pub/a/x", "/pub/a/e", "/pub/b", "/priv", "/priv/s", "/priv/s/t", "/priv/k", "/pub/new", "/priv/new", "/priv/s/new", "/pub/a/new", "/new"]
+TREE = {"/": None, "/f": b"root-file", "/pub2": None, "/pub2/q": b"qq", "/pubs": None, "/pub-x": b"px", "/priv.bak": None, "/priv.bak/z": b"zz", "/pub/ab": None, "/pub/ab/c": b"cc", "/pub": None, "/pub/a": None, "/pub/a/x": b"xxxxxxxxxx", "/pub/a/e": None, "/pub/b": b"bbbb", "/priv": None, "/priv/s": None, "/priv/s/t": b"tttt", "/priv/k": b"kk"}
+PERM_PATHS = ["/pub2", "/priv.bak", "/pub/ab", "/", "/pub", "/pub/a", "/priv", "/priv/s", "/pub/a/x", "/pub/b", "/nonexistent", "/pub/", "/priv/s/t", "/pub/a/e"]
+LOCS = ["/pub2", "/pub2/q", "/pubs", "/pub-x", "/priv.bak", "/priv.bak/z", "/pub/ab", "/pub/ab/c", "/pub2/new", "/priv.bak/new", "/", "/f", "/pub", "/pub/a", "/pub/a/x", "/pub/a/e", "/pub/b", "/priv", "/priv/s", "/priv/s/t", "/priv/k", "/pub/new", "/priv/new", "/priv/s/new", "/pub/a/new", "/new"]
 READ_VERBS = ["CWD", "MLST", "LIST", "MLSD", "RETR", "CDUP"]
 WRITE_VERBS = ["MKD", "RMD", "DELE", "RNFR", "RNTO", "STOR", "APPE"]
 
